@@ -103,16 +103,19 @@ pub(crate) fn run() -> Result<(), Error> {
     let topdir = env::current_dir()?;
     while let Some(t) = queue.pop_front() {
         if t.as_str() != "-" {
-            logs::meta(
-                "do",
-                rel(&topdir, ".", t)?
-                    .as_os_str()
-                    .to_str()
-                    .ok_or(anyhow!("cannot format target as string"))?,
-                Some(Pid::from_raw(0)),
-            );
+            // A target named on the command line is followed under the same
+            // name as when a log mentions it (`./x` is `x`): it is shown once,
+            // and its "resumed" lines carry the name of its header.
+            let name = rel(&topdir, ".", t)?
+                .into_os_string()
+                .into_string()
+                .map_err(|_| anyhow!("cannot format target as string"))?;
+            logs::meta("do", &name, Some(Pid::from_raw(0)));
+            let t = RedoPath::from_str(&name)?;
+            ls.catlog(&mut ps, &matches, status, t)?;
+        } else {
+            ls.catlog(&mut ps, &matches, status, t)?;
         }
-        ls.catlog(&mut ps, &matches, status, t)?;
     }
     Ok(())
 }
